@@ -517,20 +517,9 @@ func checkPredicates(c predCase) (o ev.Outcome) {
 		fs = fs[:60]
 	}
 	feats = append(feats, fs...)
-	// region points nearest to the cell's centre, vertices and edge midpoints
-	targets := []s2.Point{cell.Center()}
-	for k := 0; k < 4; k++ {
-		targets = append(targets, cell.Vertex(k))
-	}
-	targets = append(targets, cellPoint(cell, 0.5, 0), cellPoint(cell, 1, 0.5), cellPoint(cell, 0.5, 1), cellPoint(cell, 0, 0.5))
-	for _, tg := range targets {
-		feats = append(feats, c.R.NearestIn(tg)...)
-	}
-	for _, f := range feats {
-		if s, ok := uvSlack(cell, f); ok && s >= 0 {
-			pts = append(pts, cellPt{p: f, interior: s >= 0.02*size, src: "feature-in-cell"})
-		} else if q, ok := clampToCell(cell, f); ok {
-			pts = append(pts, cellPt{p: q, src: "feature-clamped"})
+	for _, f := range directedPoints(c.R, cell, feats) {
+		if sl, ok := uvSlack(cell, f); ok && sl >= -4*eps {
+			pts = append(pts, cellPt{p: f, interior: sl >= 0.02*size, src: "directed"})
 		}
 	}
 	nIn, nOut, nNear := 0, 0, 0
@@ -577,6 +566,71 @@ func checkPredicates(c predCase) (o ev.Outcome) {
 	}
 	o.NonTrivial = (inter && !contains) || (nIn > 0 && nOut > 0) || nNear > 0
 	o.Counts = map[string]int{"cell_points_in": nIn, "cell_points_out": nOut, "cell_points_near_boundary": nNear}
+	// configurations that only the edge-interior logic decides
+	cornersIn, cornersOut := 0, 0
+	for _, p := range []s2.Point{cell.Center(), cell.Vertex(0), cell.Vertex(1), cell.Vertex(2), cell.Vertex(3)} {
+		switch c.R.Member(p) {
+		case mIn:
+			cornersIn++
+		case mOut:
+			cornersOut++
+		}
+	}
+	if cornersIn == 0 && nIn > 0 {
+		o.Counts["sliver:"+c.R.Kind]++ // region enters the cell, no vertex/centre in it
+	}
+	if cornersOut == 0 && cornersIn == 5 && nOut > 0 {
+		o.Counts["notch:"+c.R.Kind]++ // all vertices and the centre in the region, yet part of the cell is outside
+	}
+	return o
+}
+
+// ---------------------------------------------------------------- flood fill covering
+
+func checkFloodFill(c floodCase) (o ev.Outcome) {
+	defer catch(&o, c.R)
+	region, ok := c.R.Region()
+	if !ok || !c.R.connected() {
+		o.Skip = true
+		return o
+	}
+	start := c.Start.Pt()
+	startIn := c.R.Member(start) == mIn
+	if c.R.cellKind() && startIn {
+		// cell regions meet a cell only if the interiors overlap
+		sl, ok := uvSlack(s2.CellFromCellID(s2.CellID(c.R.Cells[0])), start)
+		startIn = ok && sl > 4*eps
+	}
+	cov := s2.SimpleRegionCovering(region, start, c.Level)
+	o.Class = fmt.Sprintf("%s/start-in=%v", c.R.Kind, startIn)
+	o.Counts = map[string]int{"cells": len(cov)}
+	seen := map[s2.CellID]bool{}
+	for _, id := range cov {
+		if !id.IsValid() || id.Level() != c.Level {
+			o.Err = fmt.Sprintf("SimpleRegionCovering(level %d) returned cell %v of level %d", c.Level, id, id.Level())
+			o.Finding = "floodfill-level"
+			return o
+		}
+		if seen[id] {
+			o.Err = fmt.Sprintf("SimpleRegionCovering returned cell %v twice", id)
+			o.Finding = "floodfill-duplicate"
+			return o
+		}
+		seen[id] = true
+	}
+	if !startIn {
+		// the documentation requires the start point to be in (or on the boundary of) the region
+		o.NonTrivial = false
+		return o
+	}
+	covs := map[string][]s2.CellID{"SimpleRegionCovering": cov}
+	tl, ok := judgeMembership(&o, c.R, region, c.Probes, covs, []string{"SimpleRegionCovering"})
+	if !ok {
+		o.NonTrivial = true
+		return o
+	}
+	o.NonTrivial = len(cov) >= 2 && tl.in >= 1
+	o.Counts["probes_in"] = tl.in
 	return o
 }
 
@@ -599,6 +653,9 @@ func init() {
 	ev.Define("interior_covering_contained", ev.Options{
 		Rule:  regions + "; " + cfgs + " (MaxLevel additionally capped ~7 levels below the region's scale: the documentation warns that interior coverings subdivide to MaxLevel). Every cell of InteriorCovering and InteriorCellUnion: 3x3 uv grid, four Vertex(k), centre must not be outside the region (oracle as above); level rules; MaxCells rule; contained in Covering of the same configuration. Non-trivial = at least one cell returned.",
 		Quick: 9000, Thorough: 300000}, genIntCase, checkInterior)
+	ev.Define("flood_fill_covering", ev.Options{
+		Rule:  "connected regions only (no cell unions, polygons with at most 2 rings); level up to the capped MinLevel; start = a point the oracle puts in the region. SimpleRegionCovering / FloodFillRegionCovering: all cells at the requested level, no duplicates, and (start in region) every probe in / near the region is covered as in covering_contains_region. Non-trivial = >= 2 cells and a probe in the region.",
+		Quick: 8000, Thorough: 250000}, genFloodCase, checkFloodFill)
 	ev.Define("region_predicates_one_sided", ev.Options{
 		Rule:  regions + "; target cell: ancestor at a level around the region's scale (-4..+20, or uniform 0..30) of a probe/feature point, or an edge/vertex neighbour of it; for cell regions also members, their ancestors and descendants. Cell points: 5x5 uv grid incl. the boundary, 8 random interior points, Vertex(k), centre, region features and probes that fall in the cell, their uv clamp onto the cell, and the region's nearest points to the cell centre/vertices/edge midpoints. ContainsCell => no cell point outside the region; !IntersectsCell => no cell point in the region (cell regions: interior points only; polylines: also points inside the cell by 1e-13 that are within 4 eps of an edge); ContainsCell => IntersectsCell. Non-trivial = the cell meets the boundary (intersects but not contained, or mixed in/out points, or a point within the margin).",
 		Quick: 40000, Thorough: 1500000}, genPredCase, checkPredicates)
